@@ -316,6 +316,20 @@ def run(ctx):
             for d in std:
                 if d not in m or m[d].core != pm[d.core]:
                     problems.append("decay map of %s wrong at %s" % (c, d))
+        # the canonical (standard-topology) particles name the groupings: across the classes of a
+        # group one standard particle must stand for one grouping only (they key the angle data)
+        name_to_group = {}
+        for std in struct:
+            tab = std.sorted_table()
+            for part, leaves_of in tab.items():
+                g = frozenset(leaf_id[p] for p in leaves_of)
+                if name_to_group.setdefault(part, g) != g:
+                    problems.append("standard particle %s stands for two groupings %s and %s" % (part, sorted(name_to_group[part]), sorted(g)))
+        # ... and the standard topology of a chain has the chain's own canonical form and round-trips
+        for c, f in zip(chains, sel):
+            std = c.standard_topology()
+            if canon_of_chain(std, leaf_id) != f or not std.topology_same(c, False) or not c.topology_same(std, True):
+                problems.append("standard_topology of %s has other groupings" % c)
         if problems:
             ctx.violation(key[:150], {"problems": problems[:5], "chains": [str(c) for c in chains]})
         if gi == 0:
